@@ -99,7 +99,26 @@ def graft_config(g):
     return st.AdamGraftingConfig(beta2=gr["beta2"], epsilon=gr["eps"])
 
 
+def _styled(g, v, key):
+    """How a hyperparameter VALUE is handed to the optimizer (g["hyper_style"]): as a float (default), the learning rate as a 0-D
+    tensor that schedulers later change IN PLACE ("tensor_lr"), or integral values as Python ints ("int": lr=1, weight_decay=0)."""
+    style = g.get("hyper_style", "float")
+    if style == "tensor_lr" and key == "lr":
+        return torch.tensor(float(v))
+    if style == "int" and key in ("lr", "wd", "dampening") and float(v).is_integer():
+        return int(v)
+    return v
+
+
 def group_kwargs(g):
+    kw = _group_kwargs(g)
+    kw["lr"] = _styled(g, kw["lr"], "lr")
+    kw["weight_decay"] = _styled(g, kw["weight_decay"], "wd")
+    kw["dampening"] = _styled(g, kw["dampening"], "dampening")
+    return kw
+
+
+def _group_kwargs(g):
     return dict(
         lr=g["lr"][g.get("lr0", 1)], betas=(g["b1"][g.get("b10", 1)], g["beta2"]), beta3=g.get("beta3", -1.0), epsilon=g["eps"],
         momentum=g["mom"][g.get("mom0", 1)], dampening=g["dampening"], weight_decay=g["wd"][g.get("wd0", 0)],
@@ -280,7 +299,10 @@ def set_hyper(opt, gi, g, key, idx):
     elif key == "wd":
         grp["weight_decay"] = g["wd"][idx]
     elif key == "lr":
-        grp["lr"] = g["lr"][idx]
+        if isinstance(grp["lr"], torch.Tensor):
+            grp["lr"].fill_(g["lr"][idx])          # what torch's LR schedulers do with a tensor learning rate
+        else:
+            grp["lr"] = g["lr"][idx]
     else:
         raise KeyError(key)
 
@@ -295,5 +317,5 @@ def hyper_equals(opt, gi, g, key, idx) -> bool:
     if key == "wd":
         return grp["weight_decay"] == g["wd"][idx]
     if key == "lr":
-        return grp["lr"] == g["lr"][idx]
+        return float(grp["lr"]) == g["lr"][idx]
     raise KeyError(key)
